@@ -51,10 +51,10 @@ ASSUMPTIONS = ["mido parses/writes MIDI bytes correctly (the model starts from m
                "format artefacts: tolerated, never required",
                "equal-tick note-off/note-on of one channel+pitch written in non-chronological list order, tempo events of "
                "different tracks on one tick with different values, overlapping/stray note events: not judged"]
-MIN_HOOKS = {"save_performance_midi": {"quick": 1500, "thorough": 25000},
-             "load_performance_midi": {"quick": 2500, "thorough": 40000},
+MIN_HOOKS = {"save_performance_midi": {"quick": 2500, "thorough": 25000},
+             "load_performance_midi": {"quick": 4000, "thorough": 40000},
              "adjust_time": {"quick": 20000, "thorough": 200000}}
-MIN_NONTRIVIAL = {"quick": 1500, "thorough": 25000}
+MIN_NONTRIVIAL = {"quick": 2500, "thorough": 25000}
 WATCHDOG_S = {"quick": 900, "thorough": 7200}
 
 CASES_PER_ITEM = 20
@@ -658,9 +658,9 @@ def check_roundtrip(ctx, snap, perf, spec_w, mpq, ppq, merge_save, merge_load):
 # ------------------------------------------------------------------ driver
 def plan(tier, seed):
     q = tier == "quick"
-    items = [["rt", i] for i in range(96 if q else 1800)]
-    items += [["rth", i] for i in range(24 if q else 400)]
-    items += [["rd", i] for i in range(80 if q else 1500)]
+    items = [["rt", i] for i in range(144 if q else 1800)]
+    items += [["rth", i] for i in range(32 if q else 400)]
+    items += [["rd", i] for i in range(120 if q else 1500)]
     items += [["adj", i] for i in range(4 if q else 48)]
     fx = fixtures()
     items += [["fixture", f] for f in fx]
